@@ -96,6 +96,7 @@ type c12Env struct {
 
 type c12Opts struct {
 	excludeStableRejoin bool
+	focus               string // stop the script at the first violation of this property ("" = any)
 }
 
 type c12Client struct {
@@ -1141,7 +1142,7 @@ func c12Execute(t *testing.T, env c12Env, opts c12Opts) *c12Result {
 		time.Sleep(137 * time.Microsecond)
 		for _, a := range env.Script {
 			r.step(a)
-			if len(res.viol) > 0 {
+			if len(res.viol["PANIC"]) > 0 || (opts.focus == "" && len(res.viol) > 0) || (opts.focus != "" && len(res.viol[opts.focus]) > 0) {
 				break
 			}
 		}
@@ -1263,7 +1264,7 @@ func TestVF_C12_Machine(t *testing.T) {
 	rapid.Check(t, func(rt *rapid.T) {
 		env := c12DrawEnv(rt)
 		st.Eval()
-		res := c12Execute(t, env, c12Opts{excludeStableRejoin: exclude})
+		res := c12Execute(t, env, c12Opts{excludeStableRejoin: exclude, focus: focus})
 		for k, v := range res.classes {
 			st.ClassN(k, v)
 		}
